@@ -22,9 +22,24 @@ RUN_TIMEOUT = 1200
 def runs(tier, seed):
     if tier == "thorough":
         return [("scripted", ["scripted"])] + \
-               [("crash%d" % i, ["crash", "-seed", str(seed * 1000 + i), "-n", "60"]) for i in range(14)]
+               [("crash%d" % i, ["crash", "-seed", str(seed * 1000 + i), "-n", "60"]) for i in range(14)] + \
+               [("gen%d" % i, ["gen", "-seed", str(seed * 1000 + 50 + i), "-n", "300"]) for i in range(2)]
     return [("scripted", ["scripted"])] + \
-           [("crash%d" % i, ["crash", "-seed", str(seed * 100 + i), "-n", "4"]) for i in range(4)]
+           [("crash%d" % i, ["crash", "-seed", str(seed * 100 + i), "-n", "4"]) for i in range(4)] + \
+           [("gen0", ["gen", "-seed", str(seed * 100 + 50), "-n", "40"])]   # restarts and stale blocks (with and without logs)
+
+
+# "A block that is not newer than the last processed block is refused" and "processing resumes after the last
+# processed block" are statements about two observations of the driver: the result of handing over a block and the
+# persisted marker.  The model refuses stale blocks for every history (C12_inferior_block_refused), so a history on
+# which the real handler's result or marker differs from the model's is one on which the clause fails.
+def divergence_violation(case, d):
+    _, impl, model = d
+    if model.startswith("OBS res inferior") and impl.startswith("OBS res ") and not impl.startswith("OBS res inferior"):
+        return "a block that is not newer than the last processed block was not refused: `%s` (the rules: `%s`)" % (impl[4:], model[4:])
+    if impl.startswith("OBS last ") and model.startswith("OBS last ") and impl != model:
+        return "the last-processed-block marker is `%s`, the rules prescribe `%s`" % (impl[4:], model[4:])
+    return None
 
 
 def search_runs(tier, seed):
